@@ -12,17 +12,24 @@ BRIDGE = r'''
 impl Drop for ffi::Obj {
     fn drop(&mut self) { dv_event("Drop", &format!("p{}", self.0), ""); }
 }
+impl Drop for ffi::Tok {
+    fn drop(&mut self) { dv_event("Drop", &format!("p{}", self.0), ""); }
+}
 #[diplomat::bridge]
 pub mod ffi {
     use diplomat_runtime::{DiplomatOwnedSlice, DiplomatOption, DiplomatWrite};
     #[diplomat::opaque]
     pub struct Obj(pub u64);
+    /// a pure handle: an opaque type WITHOUT any method of its own (only its destructor is exported)
+    #[diplomat::opaque]
+    pub struct Tok(pub u64);
     pub struct Holder {
         pub data: DiplomatOwnedSlice<u8>,
         pub tag: u8,
     }
     impl Obj {
         pub fn make(id: u64) -> Box<Obj> { Box::new(Obj(id)) }
+        pub fn make_tok(id: u64) -> Box<Tok> { Box::new(Tok(id)) }
         pub fn get(&self) -> u64 { self.0 }
         pub fn describe(&self, times: u8, w: &mut DiplomatWrite) { use core::fmt::Write as _; for _ in 0..times { let _ = write!(w, "obj{};", self.0); } }
         pub fn make_result(id: u64, ok: bool) -> Result<Box<Obj>, Box<Obj>> { if ok { Ok(Box::new(Obj(id))) } else { Err(Box::new(Obj(id))) } }
@@ -42,7 +49,7 @@ def history(rng, n):
     """list of ops; objects are p1..p12 (Trace_Ownership's payload names)"""
     live, ops, nxt = [], [], 1
     for _ in range(n):
-        c = rng.randrange(14)
+        c = rng.randrange(15)
         if c <= 1 and nxt <= 12:
             ops.append(("make", nxt)); live.append(nxt); nxt += 1
         elif c == 2 and nxt <= 12:
@@ -71,6 +78,9 @@ def history(rng, n):
             # a caller-owned scratch buffer from Rust's allocator, given back by the caller (what JS and Dart do for every borrowed
             # list or string, the EMPTY one included)
             ops.append(("alloc_free", rng.choice([0, 0, 1, 16]), rng.choice([1, 2, 8])))
+        elif c == 14 and nxt <= 12:
+            # a method-less handle type: created through another type's method, owned and destroyed by the foreign side
+            ops.append(("tok", nxt)); nxt += 1
         elif c == 13 and live:
             # a CALLER-owned fixed buffer (diplomat_simple_write): slack 0 = the text fills it to the last byte before the terminator,
             # negative = too small (growth fails), positive = room to spare; the consumer then reads it as a C string
@@ -84,7 +94,7 @@ def history(rng, n):
 
 
 def c_driver(ops):
-    L = [callgen.C_SUPPORT, '#include "Obj.h"\n#include "Holder.h"\n',
+    L = [callgen.C_SUPPORT, '#include "Obj.h"\n#include "Holder.h"\n#include "Tok.h"\n',
          "static int cb_dtor_runs;\nstatic uint8_t cb_run(const void* d, uint8_t x) { (void)d; return (uint8_t)(x + 1); }\nstatic void cb_dtor(const void* d) { (void)d; cb_dtor_runs++; dv_log(\"CbDrop\", \"cb\", \"\"); }\n",
          "int main(void) {\n    Obj* o[16] = {0};\n"]
     for op in ops:
@@ -101,6 +111,9 @@ def c_driver(ops):
                 L.append('    if (Obj_make_opt(%d, false) != NULL) { dv_log("Bad", "p%d", "non-null for None"); }\n' % (op[1], op[1]))
         elif k == "get":
             L.append('    if (Obj_get(o[%d]) != %d) dv_log("Bad", "p%d", "wrong id"); dv_log("BorrowCall", "p%d", "");\n' % (op[1], op[1], op[1], op[1]))
+        elif k == "tok":
+            L.append('    { Tok* t_ = Obj_make_tok(%d); dv_log("RustMake", "p%d", ""); dv_log("ReturnBox", "p%d", ""); Tok_destroy(t_); dv_log("Destroy", "p%d", ""); }\n'
+                     % (op[1], op[1], op[1], op[1]))
         elif k == "destroy":
             L.append('    Obj_destroy(o[%d]); o[%d] = NULL; dv_log("Destroy", "p%d", "");\n' % (op[1], op[1], op[1]))
         elif k == "take_slice":
@@ -147,7 +160,7 @@ def c_driver(ops):
 def cpp_driver(ops, rng):
     """the same history through the generated C++ class API: unique_ptr wrappers (moved, reset, released and re-wrapped on the way),
     diplomat::result / nullable unique_ptr returns, spans over diplomat_alloc'ed buffers, std::function callbacks"""
-    L = [cppgen.CPP_SUPPORT, 'extern "C" void diplomat_free(void*, size_t, size_t);\n#include "Obj.hpp"\n#include "Holder.hpp"\n',
+    L = [cppgen.CPP_SUPPORT, 'extern "C" void diplomat_free(void*, size_t, size_t);\n#include "Obj.hpp"\n#include "Holder.hpp"\n#include "Tok.hpp"\n',
          "struct CbState { int* drops; ~CbState() { if (drops) { (*drops)++; dv_log(\"CbDrop\", \"cb\", \"\"); } } "
          "CbState(int* d) : drops(d) {} CbState(const CbState& o) = delete; CbState(CbState&& o) noexcept : drops(o.drops) { o.drops = nullptr; } };\n",
          "int main() {\n    std::unique_ptr<Obj> o[16];\n    int cb_drops = 0; (void)cb_drops;\n"]
@@ -177,6 +190,8 @@ def cpp_driver(ops, rng):
                 L.append('    if (Obj::make_opt(%d, false)) { dv_log("Bad", "p%d", "non-null for None"); }\n' % (op[1], op[1]))
         elif k == "get":
             L.append('    if (o[%d]->get() != %d) dv_log("Bad", "p%d", "wrong id"); dv_log("BorrowCall", "p%d", "");\n' % (op[1], op[1], op[1], op[1]))
+        elif k == "tok":
+            L.append('    { std::unique_ptr<Tok> t_ = Obj::make_tok(%d); %s t_.reset(); dv_log("Destroy", "p%d", ""); }\n' % (op[1], mk % (op[1], op[1]), op[1]))
         elif k == "destroy":
             how = rng.randrange(3)
             stmt = ["o[%d].reset();", "o[%d] = nullptr;", "{ std::unique_ptr<Obj> t_ = std::move(o[%d]); }"][how] % op[1]
@@ -280,8 +295,7 @@ def run_leg(rep, tier):
         ops = history(rng, rng.randrange(6, 26))
         if i == 0:
             # whatever the seed: one exactly-filled fixed buffer (the terminator lands on the last byte)
-            ops = [("make", 12), ("describe_fixed", 12, 2, 0)] + [o for o in ops if not (o[0].startswith("make") and o[1] == 12)
-                                                                   and not (len(o) > 1 and o[1] == 12)] + [("destroy", 12)]
+            ops = [("tok", 11), ("make", 12), ("describe_fixed", 12, 2, 0)] + [o for o in ops if not (len(o) > 1 and o[0] not in ("take_slice", "take_str", "call_cb", "alloc_free", "take_holder") and o[1] in (11, 12))] + [("destroy", 12)]
         evs = execute("c", i, ops, c_driver(ops))
         if evs is None:
             return
